@@ -43,6 +43,7 @@ fn main() {
         "C13" => props::c13::run(&cfg),
         "C14" => props::c14::run(&cfg),
         "C15" => props::c15::run(&cfg),
+        "C16" => props::c16::run(&cfg),
         "C17" => props::c17::run(&cfg),
         "C18" => props::c18::run(&cfg),
         "C19" => props::c19::run(&cfg),
